@@ -157,8 +157,21 @@ def deliveries(rng, stream, op, all_cuts_upto, multi=2):
     return res
 
 
+def f1_of_ops(ops):
+    """the LF-CR hazard of RES_HEADERS (C03/F1, gen_res.f1_hazard) for the response stream delivered by these ops"""
+    import gen_res
+    stream = b""
+    cuts = []
+    for o in ops:
+        if o[:1] == "S" and o[1:] != "-":
+            if stream:
+                cuts.append(len(stream))
+            stream += bytes.fromhex(o[1:])
+    return gen_res.f1_hazard(stream, cuts)
+
+
 def gen_exchanges(rng, n_req, n_res, n_mixed, all_cuts_upto):
-    """[(case line, truth)] with truth = {"req": [...], "res": [...]}"""
+    """[(case line, truth)] with truth = {"req": [...], "res": [...], "f1": hazard of C03/F1 present}"""
     out = []
     for _ in range(n_req):
         k = rng.randint(1, 3)
@@ -175,7 +188,7 @@ def gen_exchanges(rng, n_req, n_res, n_mixed, all_cuts_upto):
         truth = {"req": [t for _, t in reqs], "res": [t for _, t in ress]}
         qops = ["Q" + b"".join(w for w, _ in reqs).hex()]
         for ops in deliveries(rng, rstream, "S", all_cuts_upto):
-            out.append((sconnp.case(["O"] + qops + ops + ["C"]), truth))
+            out.append((sconnp.case(["O"] + qops + ops + ["C"]), dict(truth, f1=f1_of_ops(ops))))
     for _ in range(n_mixed):
         k = rng.randint(1, 3)
         reqs = [g_request(rng, i) for i in range(k)]
@@ -187,7 +200,7 @@ def gen_exchanges(rng, n_req, n_res, n_mixed, all_cuts_upto):
             ops += ["Q" + p.hex() for p in sconnp.cut(qw, sconnp.split_points(qw, rng, "random") if rng.random() < 0.7 else [])]
             ops += ["S" + p.hex() for p in sconnp.cut(sw, sconnp.split_points(sw, rng, "random") if rng.random() < 0.7 else [])]
         ops.append("C")
-        out.append((sconnp.case(ops), truth))
+        out.append((sconnp.case(ops), dict(truth, f1=f1_of_ops(ops))))
     return out
 
 
@@ -479,14 +492,16 @@ def run_known(ctx):
 
 
 def known_exhibited(sig, impl):
+    """the witness still shows the defect: the recorded observation holds and (when a whole-delivery twin is given)
+    the two deliveries of the same bytes differ in what was delivered or counted"""
     d = (sconnp.tx_dumps(impl[0]) or [""])[0]
     for k, v in sig.get("observed", {}).items():
         if sconnp.field(d, k) != str(v):
             return False
     if sig.get("whole_case") and len(impl) > 1:
         d2 = (sconnp.tx_dumps(impl[1]) or [""])[0]
-        return any(sconnp.field(d, k) != sconnp.field(d2, k) for k in ("sel", "sml", "rel", "rml")) or \
-            [e[3] for e in parse_events(impl[0])[0] if e[1] in (5, 14) and e[3]] != [e[3] for e in parse_events(impl[1])[0] if e[1] in (5, 14) and e[3]] or bool(sig.get("observed"))
+        pay = lambda o: b"".join(e[3] for e in parse_events(o)[0] if e[1] in (5, 14) and e[3])
+        return any(sconnp.field(d, k) != sconnp.field(d2, k) for k in ("sel", "sml", "rel", "rml")) or pay(impl[0]) != pay(impl[1])
     return True
 
 
@@ -503,15 +518,16 @@ def check(ctx):
     if ctx.thorough():
         n_req, n_res, n_mixed, upto, n_gq, n_gs = 400, 400, 1500, 260, 6000, 12000
     else:
-        n_req, n_res, n_mixed, upto, n_gq, n_gs = 42, 42, 300, 150, 1300, 2200
+        n_req, n_res, n_mixed, upto, n_gq, n_gs = 90, 90, 700, 160, 2500, 4500
     ex = gen_exchanges(rng, n_req, n_res, n_mixed, upto)
     bd = gen_boundary(rng)
-    gen = connp_props.general_cases(ctx, n_gq, n_gs, with_requests=True)
+    gen = connp_props.general_cases(ctx, n_gq, n_gs, with_requests=False)
     cases = [c for c, _ in ex] + [c for c, _ in bd] + gen
     impl, model, verdicts, traces, crash = connp_props.correspond_and_oracle(ctx, cases)
     n_ex, n_bd = len(ex), len(bd)
     # (i) implementation vs model: the exchanges are inside the premises of the theorems, the rest is outside
-    connp_props.report_mismatches(ctx, cases, impl, model, crash, in_domain=lambda i: i < n_ex,
+    inside = lambda i: i < n_ex and not ex[i][1].get("f1")
+    connp_props.report_mismatches(ctx, cases, impl, model, crash, in_domain=inside,
                                   theorem="Properties_C06.v (C06_identity_body, C06_chunked_decode_encode_partial, C06_close_delimited, C06_accounting)")
     # (ii) ground-truth oracle on the implementation's output
     keys = set()
@@ -523,6 +539,9 @@ def check(ctx):
         o = impl[i]
         if i < n_ex:
             truth = ex[i][1]
+            if truth.get("f1"):
+                classes["exchange-f1-hazard"] = classes.get("exchange-f1-hazard", 0) + 1
+                continue
             errs = exchange_errors(o, truth)
             classes["exchange"] += 1
             keys.add(("x", tuple(t["framing"] for t in truth["req"]), tuple(t["framing"] for t in (truth["res"] or [])), min(cases[i].count(","), 9)))
@@ -592,7 +611,7 @@ def _truth_json(t):
 
     def j(m):
         return {k: (v.hex() if isinstance(v, bytes) else v) for k, v in m.items()}
-    return {"req": [j(m) for m in t["req"]], "res": [j(m) for m in (t["res"] or [])]}
+    return {"req": [j(m) for m in t["req"]], "res": [j(m) for m in (t["res"] or [])], "f1": bool(t.get("f1"))}
 
 
 def _truth_from_json(o):
